@@ -186,9 +186,10 @@ def attemptAt (S : Side) (inp : Input) (fuel : Nat) (i : Nat) : Sexp :=
 end Cc
 
 /-- `(c01 compile strict <info> <node> fuel (<input>…))` with `<input>` = `(input (text r…) (named (id r)…) (word r…))` →
-    `(cc (covered T<k>)|(notcovered <reason>) <pat>|none (<attempt at 0> … <attempt at len>)…)`: the coverage
-    class by `Compile.InFrag`, `Compile.toPatRoot X ti.rtl root` in the syntax of `gen.FromGoTree`, and, for a
-    covered tree only, per input the attempts at every position. -/
+    `(cc (covered T<k>)|(notcovered <reason>) <pat>|none (names (byte…)…) (<attempt at 0> … <attempt at len>)…)`:
+    the coverage class by `Compile.InFrag`, `Compile.toPatRoot X ti.rtl root` in the syntax of `gen.FromGoTree`,
+    the category names of the tree in id order (`Compile.namesOf`, id = 100 + index), and, for a covered tree
+    only, per input the attempts at every position. -/
 def handleCompile (args : List Sexp) : String :=
   match args with
   | [strict, info, node, fuel, inputs] =>
@@ -212,7 +213,7 @@ def handleCompile (args : List Sexp) : String :=
             | some inp => .list ((List.range (inp.text.length + 1)).map (Cc.attemptAt S inp fuel))
             | none => .atom "bad-input"
         | _, _ => []
-      toString (mk "cc" ([cls, patS] ++ runs))
+      toString (mk "cc" ([cls, patS, mk "names" (names.map ofNats)] ++ runs))
     | _, _, _, _, _ => "(bad-op)"
   | _ => "(bad-op)"
 
